@@ -11,9 +11,10 @@ CONSTANTS
  MaxEdits = 2
  MaxEvents = 2
  MaxFaults = 1
+ MaxTicks = 0
  Export = TRUE
  RunToBlock = TRUE
  Mut = "none"
 SPECIFICATION Spec
-INVARIANTS InvPausedQuiet InvFlushFresh InvPauseSurvives InvTerminatedGone InvReset InvC11 InvNeverPropagated InvLoopShape ExportBehaviour
+INVARIANTS InvPausedQuiet InvFlushFresh InvPauseSurvives InvTerminatedGone InvReset InvC11 InvNeverPropagated InvLoopShape InvStatusMachine ExportBehaviour
 CHECK_DEADLOCK FALSE
